@@ -171,6 +171,37 @@ def r10_6(ctx, fx):
         ok = bool(ok_edges) and c.node not in fn.reach([fn.entry], cut=ok_edges)
         ctx.ob("R10.6", "dial_address/address-remembered-only-if-its-transport-is-installed#%d" % i, ok, site=fn.site(c.node), cfg=fx.cfg,
                detail="installed-transport tests found: %d" % len(ok_edges))
+    # the same gate as add_known_address (sibling): not one of the node's own listen addresses whatever peer id it carries
+    # (is_local_address strips the /p2p component), and not an unspecified IP
+    loc = set()
+    for c in fn.calls(r"TransportManagerHandle::is_local_address$"):
+        for sw, t, f in fn.bool_tests(c.dest[0]):
+            loc.add((sw, f))
+    unspec = {}
+    for c in fn.calls(r"(Ipv4Addr|Ipv6Addr)::is_unspecified$"):
+        fam = "ip4" if "Ipv4" in c.name else "ip6"
+        for sw, t, f in fn.bool_tests(c.dest[0]):
+            unspec.setdefault(fam, set()).add((sw, t))
+    dials = [c.node for c in fn.calls(r"transport::Transport::dial$")]
+    csw = [sw for sw in fn.discr_switches() if sw[2].endswith("peer_state::StateDialResult")]
+    not_ok = set()
+    for sw in csw:
+        for v in list(sw[3]) + list(sw[5]):
+            if v != "Ok":
+                for lab in fn.variant_edges(sw, v):
+                    if lab not in fn.variant_edges(sw, "Ok"):
+                        not_ok.add((sw[0], lab))
+    for i, c in enumerate(ins):
+        ctx.ob("R10.6", "dial_address/insert#%d-only-if-not-a-local-address(is_local_address)" % i, bool(loc) and c.node not in fn.reach([fn.entry], cut=loc), site=fn.site(c.node), cfg=fx.cfg,
+               detail="is_local_address tests: %d" % len(loc))
+        r_uns = all(c.node not in fn.reach([n_ for sw_, lab in es for n_, l in fn.succs(sw_) if l == lab]) for es in unspec.values())
+        ctx.ob("R10.6", "dial_address/insert#%d-not-for-an-unspecified-ip" % i, len(unspec) == 2 and r_uns, site=fn.site(c.node), cfg=fx.cfg,
+               detail="is_unspecified tests per family: %s" % sorted(unspec))
+        # remembered only once the transport accepted it: on the path that dials, the insert follows Transport::dial
+        after_dial = bool(dials) and c.node not in fn.reach([fn.entry], avoid=dials)
+        no_dial_path = bool(not_ok) and c.node not in fn.reach([fn.entry], cut=not_ok)
+        ctx.ob("R10.6", "dial_address/insert#%d-after-the-transport-accepted-the-address" % i, after_dial or no_dial_path, site=fn.site(c.node), cfg=fx.cfg,
+               detail="after Transport::dial: %s; on a path that does not dial (already connected / dialing): %s" % (after_dial, no_dial_path))
 
 
 def r10_2(ctx, fx):
